@@ -284,8 +284,8 @@ class timemodel(_coreiterative):
             dtloc = self.modeldisc.calc_timestep(self.Qn, condition)
             mindtloc = min(dtloc) # mindtloc = dtloc
             Qnn = self.Qn.copy()
-            if isave < nsave: # specific step to save result and go back to Qn
-                if self.Qn.time+mindtloc >= tsave[isave]:
+            # specific steps to save results and go back to Qn: all save times reached by this step
+            while (isave < nsave) and (self.Qn.time+mindtloc >= tsave[isave]):
                     # compute smaller step with same integrator
                     self.step(Qnn, tsave[isave]-self.Qn.time)
                     Qnn.it = self._itstart + self._nit
